@@ -286,6 +286,12 @@ template <class S> void embedded(vf::Ctx& c) {
 	try { v = check_all_targets(in, detail, ev, true); }
 	catch (const std::exception& e) { c.fail("exception escaped", e.what()); }
 	if (v) c.fail(v, detail);
+	// the string-to-string conversions of Convert:: are transcodings with the fail policy: ill-formed input (a truncated tail included) must be
+	// reported (exception / empty optional), well-formed input converts
+	const bool ok = well_formed(in);
+	auto conv = [&](auto tag, const char* name) { using T = decltype(tag); bool threw = false; try { (void)Convert::To<std::basic_string<T>>(in); } catch (const std::exception&) { threw = true; } const bool tried = Convert::TryTo<std::basic_string<T>>(in).has_value();
+		if (ok ? (threw || !tried) : (!threw || tried)) c.fail(ok ? "Convert::To rejects well-formed text" : "Convert::To between string types accepts ill-formed text (fail policy: must be reported)", vf::cat("to ", name, " from w", sizeof(S) * 8, " ", units(in), " threw=", threw, " TryTo=", tried)); };
+	if constexpr (sizeof(S) != 1) conv(char{}, "std::string"); if constexpr (sizeof(S) != 2) conv(char16_t{}, "std::u16string"); if constexpr (sizeof(S) != 4) { conv(char32_t{}, "std::u32string"); conv(wchar_t{}, "std::wstring"); }
 }
 }
 
